@@ -10,12 +10,12 @@ def cell_key(cfg):
     return json.dumps({k: v for k, v in sorted(cfg.items()) if k != "seed"}, sort_keys=True, default=str)
 
 
-def campaign(ck, cells, R, tag, func="tvf.runs:run_summary", timeout=600):
+def campaign(ck, cells, R, tag, func="tvf.runs:run_summary", timeout=600, R0=None):
     """cells: list of cfg dicts (without seed).  Returns {index: [summary,...]} and failure list."""
     tasks = []
     owner = []
     for ci, cfg in enumerate(cells):
-        for r in range(R):
+        for r in range(int(cfg.get("reps", 0)) * max(1, R // R0) if cfg.get("reps") and R0 else R):
             tasks.append((func, dict(cfg=dict(cfg, seed=ck.subseed(tag, ci, r))), None))
             owner.append(ci)
     out = {ci: [] for ci in range(len(cells))}
@@ -33,7 +33,8 @@ def judge(ck, cells, extract, R, tag, on_violation, N_of=lambda c: c["N"], label
     """Two-stage Rule S over all cells.
     extract(cfg, summaries) -> list of (name, estimates[list], truth, scale).
     on_violation(cfg, name, first, second) records the violation (with mechanism key)."""
-    res, fails = campaign(ck, cells, R, tag)
+    # a cell may carry its own replicate count ("reps": expensive cells); the confirmation stage doubles it like the others
+    res, fails = campaign(ck, cells, R, tag, R0=R)
     flagged = []
     table = []
     for ci, cfg in enumerate(cells):
@@ -43,7 +44,7 @@ def judge(ck, cells, extract, R, tag, on_violation, N_of=lambda c: c["N"], label
             else:
                 ck.violation("run-crashed", f"replicate of {label(cfg)} seed={seed}: {st} {msg}", dict(cfg=cfg, seed=seed))
         for name, est, truth, scale in extract(cfg, res[ci]):
-            r = stats.rule_s(est, truth, scale, N_of(cfg), R)
+            r = stats.rule_s(est, truth, scale, N_of(cfg), cfg.get("reps", R))
             ck.case(dict(cell=json.loads(cell_key(cfg)), estimand=name), nontrivial=not r["inconclusive"])
             ck.event("ensemble cells judged by Rule S")
             ck.event("replicate runs contributing", r["n"])
@@ -57,14 +58,14 @@ def judge(ck, cells, extract, R, tag, on_violation, N_of=lambda c: c["N"], label
         # stage 2: fresh seeds, 2R replicates, only the flagged cells
         cis = sorted({ci for ci, _, _ in flagged})
         sub = [cells[ci] for ci in cis]
-        res2, fails2 = campaign(ck, sub, 2 * R, tag + "-confirm")
+        res2, fails2 = campaign(ck, sub, 2 * R, tag + "-confirm", R0=R)
         for ci, name, r1 in flagged:
             j = cis.index(ci)
             ex = {n: (e, t, s) for n, e, t, s in extract(cells[ci], res2[j])}
             if name not in ex:
                 continue
             e, t, s = ex[name]
-            r2 = stats.rule_s(e, t, s, N_of(cells[ci]), 2 * R)
+            r2 = stats.rule_s(e, t, s, N_of(cells[ci]), 2 * cells[ci].get("reps", R))
             ck.event("flagged cells re-run on fresh seeds")
             row = dict(cell=label(cells[ci]), estimand=name, stage=2, n=r2["n"], b=r2["b"], se=r2["se"], z=r2["z"], flag=r2["flag"])
             table.append(row)
